@@ -102,8 +102,8 @@ func loadProgram(repo string, verifDir string) (*program, error) {
 	}
 	// every contract must name an existing function
 	for key := range p.cons.funcs {
-		if _, ok := p.funcs[key]; !ok {
-			return nil, fmt.Errorf("contract for unknown function %s", key)
+		if _, ok := p.funcs[key]; !ok && !strings.Contains(key, ".iface:") && !strings.Contains(key, ".functype:") {
+			p.cons.missing = append(p.cons.missing, key)
 		}
 	}
 	return p, nil
